@@ -11,7 +11,7 @@ import (
 )
 
 type Job struct {
-	Mode string `json:"mode"`
+	Mode string  `json:"mode"`
 	C04  *C04Job `json:"c04,omitempty"`
 	C05  *C05Job `json:"c05,omitempty"`
 	C10  *C10Job `json:"c10,omitempty"`
